@@ -236,13 +236,13 @@ def configs(tier):
         ('env-full', gen_cfg(4 if q else 5, ENV, ['1', '2'], ['right', 'wrong'], False, P1), None, False),
         ('env-nonnum', gen_cfg(6 if q else 7, ENV, ['1', '2'], ['right', 'wrong', 'nonnum'], False, P3, view=True), None, False),
         ('env-nested-deep', gen_cfg(12 if q else 15, ENV, ['1', '2'], ['right', 'wrong'], False, P1, view=True, nested=True), None, False),
-        ('env-deep-view', gen_cfg(6 if q else 8, ENV, ['1', '2'], ['right', 'wrong'], False, P1, view=True), None, False),
+        ('env-deep-view', gen_cfg(5 if q else 8, ENV, ['1', '2'], ['right', 'wrong'], False, P1, view=True), None, False),
         ('hl', gen_cfg(9 if q else 10, ['ST', 'SE', 'HL'], ['1', '2'], ['right'], False, P3, view=True), None, False),
         ('hl-wrong', gen_cfg(6 if q else 8, ['ST', 'SE', 'HL', 'B'], ['1'], ['right', 'wrong', 'nonnum'], False, P3), None, False),
         ('lx', gen_cfg(8 if q else 9, ['ST', 'SE', 'CLM', 'LX', 'B'], ['1', '2'], ['right', 'wrong'], True, P3, view=True), None, True),
         ('lx-off', gen_cfg(7, ['CLM', 'LX', 'SE', 'ST'], ['1'], ['right', 'wrong'], False, P3, view=True), None, False),
         ('sim-all', gen_cfg(24 if q else 40, ENV + ['HL', 'CLM', 'LX'], ['1', '2', '3'], ['right', 'wrong', 'nonnum'], True, P1),
-         'num=%d' % (150 if q else 3000), True),
+         'num=%d' % (50 if q else 3000), True),
     ]
 
 
